@@ -1,2 +1,18 @@
 #!/bin/sh
-exit 0
+# Builds the driver and a base Go build cache (std, std -race) from files on disk only.
+set -e
+here=$(cd "$(dirname "$0")" && pwd)
+export GOFLAGS=-mod=mod GOPROXY=off GOSUMDB=off GOTOOLCHAIN=local
+cd "$here"
+mkdir -p .bin .cache
+go build -o .bin/vcheck ./cmd/vcheck
+base="$here/.cache/go-build-base"
+if [ ! -d "$base" ]; then
+  tmp="$here/.cache/go-build-base.tmp.$$"
+  rm -rf "$tmp"; mkdir -p "$tmp"
+  GOCACHE="$tmp" go build std
+  GOCACHE="$tmp" go build -race std 2>/dev/null || true
+  GOCACHE="$tmp" go vet ./vref >/dev/null 2>&1 || true
+  mv "$tmp" "$base" 2>/dev/null || rm -rf "$tmp"
+fi
+echo "setup ok"
